@@ -11,7 +11,9 @@ Tie        : correspondence `gc_faults`: tables with 1-4 retained snapshots (sha
              (exists->False, garbage bytes, listing + "../x")} by wrapping the storage object; the same fault plan
              drives the model; compared: abort phase / completion, exact deleted set, keep sets, call trace.
              `gc_damage`: every damage class {missing, garbage, empty, cut inside the Avro block, cut in the header}
-             on every reachable list / manifest, real directory vs model.
+             on every reachable list / manifest, real directory vs model.  The pointer plane (version hint, metadata JSON)
+             is outside the model: faults at every call of refresh() / the hint check and damage of the current metadata
+             file {missing, garbage, empty, truncated} are judged by the oracle only; a stale hint is recorded, not judged.
 Oracle /   : implementation only (independent reader): whenever collect raised -> GarbageCollectionAborted and the
 search       data / manifest file set is unchanged when the fault precedes the first sweep (afterwards: only true
              orphans gone); always deleted & (reachable | live protected) = {}; a marker still present protects.
@@ -179,11 +181,11 @@ def run_table(spec: Dict[str, Any]) -> Dict[str, Any]:
         def one(plan: Optional[List[Dict[str, Any]]], damage: Optional[Tuple[str, str]], pos: str, what: str) -> Dict[str, Any]:
             dst = fresh_copy()
             store = None
+            t = load_table(dst)          # opened while intact; the damage happens before the collection
             if damage is not None:
                 apply_damage(dst, *damage)
                 store = gcsim.store_term(dst)
             before = gcsim.list_tree(dst)
-            t = load_table(dst)
             real = gcsim.run_collect(t, grace, now, plan)
             after = gcsim.list_tree(dst)
             viol = judge(grace, now, reach, live, markers0, before, after, real, pos, what)
@@ -243,6 +245,26 @@ def run_table(spec: Dict[str, Any]) -> Dict[str, Any]:
                                             "what": f"reachable {role_of(key, reach_lists, reach_mans)} {key} damaged ({dmg}) and the collection completed"})
                 out["runs"].append(r)
                 out["stats"]["damage_runs"] += 1
+        # the pointer plane (oracle only: metadata_manager.refresh is outside the model): the current metadata file missing
+        # or unparseable must make the collection raise without deleting; a stale hint is F-C10c territory (recorded only)
+        hint = open(os.path.join(root, gcsim.HINT_KEY)).read().strip()
+        cur_meta = "metadata/" + (f"v{hint}.metadata.json" if hint.isdigit() else hint)
+        older = sorted(k for k in gcsim.list_tree(root) if gcsim.is_pointer_plane(k) and k.startswith("metadata/v") and k != cur_meta)
+        for dmg in ["missing", "garbage", "empty", "cut-header"]:
+            what = f"damage:{dmg}:current-metadata"
+            r = one(None, (cur_meta, dmg), "refresh", what)
+            r["store"], r["pointer_plane"] = None, True
+            if not r["real"]["raised"]:
+                r["violations"].append({"key": f"damage-not-detected:{dmg}:current-metadata",
+                                        "what": f"the current metadata file {cur_meta} is damaged ({dmg}) and the collection completed "
+                                                f"(deleted {sorted(set(r['before']) - set(r['after']))[:3]})"})
+            out["runs"].append(r)
+            out["stats"]["damage_runs"] += 1
+        if older:
+            r = one(None, (gcsim.HINT_KEY, "stale:" + older[0].split("/", 1)[1]), "refresh", "damage:stale-hint")
+            r["store"], r["pointer_plane"], r["not_judged"], r["violations"] = None, True, True, []
+            out["stats"]["stale_hint_completed_deleting"] = len(set(r["before"]) - set(r["after"])) if not r["real"]["raised"] else -1
+            out["runs"].append(r)
         for r in out["runs"]:
             out["stats"]["raised" if r["real"]["raised"] else "absorbed"] += 1
             out["violations"].extend(r["violations"])
@@ -260,6 +282,10 @@ def apply_damage(root: str, key: str, dmg: str) -> None:
     bs = open(full, "rb").read()
     if dmg == "missing":
         os.remove(full)
+        return
+    if dmg.startswith("stale:"):
+        with open(full, "w") as f:
+            f.write(dmg[6:])
         return
     new = {"garbage": b"\x00\xff this is not a manifest \x01", "empty": b"", "cut-block": bs[:-20], "cut-header": bs[: len(bs) // 2], "json-empty": b"{}"}[dmg]
     with open(full, "wb") as f:
@@ -280,12 +306,10 @@ def refresh_faults(spec: Dict[str, Any]) -> Dict[str, Any]:
         root, now = build_base(os.path.join(base, "base"), spec)
         reader0 = gcsim.IndepReader(root)
         reach, live, markers0 = reader0.reachable(), reader0.live_protected(now, TIMEOUT_MS), reader0.markers()
-        t = load_table(root)
-        st = gcsim.TracingStorage(t.storage)
-        t.metadata_manager.storage = st
-        t.metadata_manager.refresh()
-        pre = list(st.trace)
-        t.metadata_manager.storage = t.storage
+        probe = os.path.join(base, "probe", "tbl")
+        os.makedirs(os.path.dirname(probe))
+        gcsim.copy_table(root, probe)
+        pre = gcsim.run_collect(load_table(probe), spec["grace"], now)["pre_trace"]   # refresh() + the hint check
         occ: Dict[Tuple[str, str], int] = {}
         k = 0
         for (op, key, _f) in pre:
@@ -358,6 +382,8 @@ def run_campaign(ctx) -> None:
         agg["damage_runs"] += res["stats"]["damage_runs"]
         agg["raised"] += res["stats"]["raised"]
         agg["absorbed_or_completed"] += res["stats"]["absorbed"]
+        if "stale_hint_completed_deleting" in res["stats"]:
+            agg.setdefault("not_judged_stale_hint_files_deleted", []).append(res["stats"]["stale_hint_completed_deleting"])
         pspec = {k: spec[k] for k in spec if k != "base"}
         for v in res["violations"]:
             ctx.violation(v["key"], v["what"], {"spec": pspec, "campaign": "faults"})
@@ -436,7 +462,7 @@ def run_campaign(ctx) -> None:
     for ri, (spec, res) in enumerate(recs):
         m = res["model"]
         for run in res["runs"]:
-            if run["damage"] is None:
+            if run["damage"] is None or run.get("pointer_plane"):
                 continue
             if run.get("not_judged"):
                 agg["not_judged_parses_as_empty"] += 1
